@@ -758,24 +758,33 @@ func UnfoldBooleanAction(unfoldOpts BooleanUnfold) RewriteAction {
 			remainingArgs = append(remainingArgs, arg.DeepCopy())
 		}
 
+		// only the boolean assignment is unfolded: an option can make other assignments
+		// (constants added by add_assignment, the other fields of a struct, …)
+		assignmentsWith := func(value bool) []ast.Assignment {
+			assignments := []ast.Assignment{
+				ast.ConstantAssignment(option.Assignments[0].Path, value),
+			}
+			for _, assignment := range option.Assignments[1:] {
+				assignments = append(assignments, assignment.DeepCopy())
+			}
+
+			return assignments
+		}
+
 		newOpts := []ast.Option{
 			{
-				Name:     unfoldOpts.OptionTrue,
-				Args:     remainingArgs,
-				Comments: append([]string(nil), option.Comments...),
-				Assignments: []ast.Assignment{
-					ast.ConstantAssignment(option.Assignments[0].Path, true),
-				},
+				Name:        unfoldOpts.OptionTrue,
+				Args:        remainingArgs,
+				Comments:    append([]string(nil), option.Comments...),
+				Assignments: assignmentsWith(true),
 				VeneerTrail: append([]string{}, option.VeneerTrail...),
 			},
 
 			{
-				Name:     unfoldOpts.OptionFalse,
-				Args:     append([]ast.Argument(nil), remainingArgs...),
-				Comments: append([]string(nil), option.Comments...),
-				Assignments: []ast.Assignment{
-					ast.ConstantAssignment(option.Assignments[0].Path, false),
-				},
+				Name:        unfoldOpts.OptionFalse,
+				Args:        append([]ast.Argument(nil), remainingArgs...),
+				Comments:    append([]string(nil), option.Comments...),
+				Assignments: assignmentsWith(false),
 				VeneerTrail: append([]string{}, option.VeneerTrail...),
 			},
 		}
